@@ -1120,6 +1120,12 @@ func RunBig(p *plan.Plan) *plan.Result {
 				}
 			}
 		}
+		if panA == "hang" || panA == "deadlock" {
+			if panA == "deadlock" {
+				report("deadlock", "the method waits for a lock that nothing can release")
+			}
+			break // abandoned call: no further verdicts from this run
+		}
 		if (panA != "") != (panM != "") {
 			report("panic", fmt.Sprintf("BigInt panic=%q, math/big panic=%q", panA, panM))
 			resync()
